@@ -1016,6 +1016,8 @@ theorem empty_sound (hI : Ideal A) (rc : RCfg) (hch : rc.checkHash = true)
     (hn : 0 < n) (first : Path) (hk : first.length = n) (P : PSet H) (more : Bool)
     (h : verifyEmpty A rc (t.hash A) first P = RRes.ok more) : t.get A first = A.zero := by
   unfold verifyEmpty at h
+  have hroot : t.hash A ≠ A.zero := hash_ne_zero hI hwf hn
+  simp only [hroot, decide_false, Bool.and_false, Bool.false_eq_true, if_false] at h
   cases hr : resolveAux A rc P true verifyFuel (t.hash A) first with
   | none => simp [hr] at h
   | some pr =>
@@ -1112,5 +1114,431 @@ theorem single_complete (rc : RCfg) (s : Tree H) (n : Nat) (hwf : WF s n) (hn : 
   obtain ⟨path, hp⟩ := resolve_complete (A := A) rc P false legacy cached s n verifyFuel k hwf hn hk
     (verifyFuel_ge h256) hhas hlook
   exact ⟨hasRight path, by simp [verifySingle, hv, hp]⟩
+
+/-! ### the `more` flag: `hasRightElement` on an authenticated path -/
+
+theorem pathLt_irrefl (a : Path) : pathLt a a = false := by
+  induction a with
+  | nil => rfl
+  | cons x xs ih => simp [pathLt, ih]
+
+theorem pathLt_append_left (p a b : Path) : pathLt (p ++ a) (p ++ b) = pathLt a b := by
+  induction p with
+  | nil => rfl
+  | cons x xs ih => simp [pathLt, ih]
+
+/-- equal-length prefixes that differ decide the comparison -/
+theorem pathLt_append_of_ne : ∀ (a b x y : Path), a.length = b.length → a ≠ b →
+    pathLt (a ++ x) (b ++ y) = pathLt a b := by
+  intro a
+  induction a with
+  | nil => intro b x y hl hne; cases b with
+    | nil => exact absurd rfl hne
+    | cons _ _ => simp at hl
+  | cons u us ih =>
+    intro b x y hl hne
+    cases b with
+    | nil => simp at hl
+    | cons v vs =>
+      simp only [List.cons_append, pathLt]
+      by_cases huv : u = v
+      · subst huv
+        simp only [if_true]
+        exact ih vs x y (by simpa using hl) (fun h => hne (by rw [h]))
+      · simp [huv]
+
+theorem pathVal_lt_iff : ∀ (a b : Path), a.length = b.length →
+    (pathVal a < pathVal b ↔ pathLt a b = true) := by
+  intro a
+  induction a with
+  | nil => intro b hl; cases b with
+    | nil => simp [pathVal, pathLt]
+    | cons _ _ => simp at hl
+  | cons u us ih =>
+    intro b hl
+    cases b with
+    | nil => simp at hl
+    | cons v vs =>
+      have hl' : us.length = vs.length := by simpa using hl
+      have h1 := pathVal_lt us
+      have h2 := pathVal_lt vs
+      rw [hl'] at h1
+      simp only [pathVal, pathLt, hl']
+      cases u <;> cases v <;> simp
+      · exact ih vs hl'
+      · omega
+      · omega
+      · exact ih vs hl'
+
+theorem cmpGt_eq_pathLt {a b : Path} (h : a.length = b.length) : cmpGt a b = pathLt b a := by
+  unfold cmpGt
+  simp only [h, ne_eq, not_true_eq_false, if_false]
+  have := pathVal_lt_iff b a h.symm
+  cases hp : pathLt b a with
+  | true => simp [this.mpr hp]
+  | false =>
+    have : ¬ pathVal b < pathVal a := fun hlt => by rw [this.mp hlt] at hp; cases hp
+    simp [this]
+
+
+theorem exists_has {t : Tree H} {n : Nat} (hwf : WF t n) : ∃ k, k.length = n ∧ t.has k = true := by
+  induction t generalizing n with
+  | leaf v => have := hwf.leaf_inv; subst this; exact ⟨[], rfl, rfl⟩
+  | bin l r ihl _ =>
+    obtain ⟨m, rfl, hl, _⟩ := hwf.bin_inv
+    obtain ⟨k, hk, hh⟩ := ihl hl
+    exact ⟨false :: k, by simp [hk], by simp [Tree.has, hh]⟩
+  | edge p c ih =>
+    obtain ⟨m, rfl, _, hc⟩ := hwf.edge_inv
+    obtain ⟨k, hk, hh⟩ := ih hc
+    exact ⟨p ++ k, by simp [hk], by simp [Tree.has, hh]⟩
+
+/-- some key of the tree (of height n) is greater than `key` -/
+def GtIn (t : Tree H) (n : Nat) (key : Path) : Prop :=
+  ∃ k', k'.length = n ∧ t.has k' = true ∧ pathLt key k' = true
+
+theorem gtIn_leaf (v : H) (key : Path) : ¬ GtIn (Tree.leaf v) 0 key := by
+  rintro ⟨k', hk, _, hlt⟩
+  have : k' = [] := List.eq_nil_of_length_eq_zero hk
+  subst this
+  cases key <;> simp [pathLt] at hlt
+
+theorem gtIn_bin {l r : Tree H} {n : Nat} (hr : WF r n) (b : Bool) (key : Path) :
+    GtIn (Tree.bin l r) (n + 1) (b :: key) ↔
+      (if b then GtIn r n key else True) := by
+  cases b with
+  | false =>
+    simp only [Bool.false_eq_true, if_false, iff_true]
+    obtain ⟨k, hk, hh⟩ := exists_has hr
+    exact ⟨true :: k, by simp [hk], by simp [Tree.has, hh], by simp [pathLt]⟩
+  | true =>
+    simp only [if_true]
+    constructor
+    · rintro ⟨k', hk, hh, hlt⟩
+      cases k' with
+      | nil => simp at hk
+      | cons b' k'' =>
+        cases b' with
+        | false => simp [pathLt] at hlt
+        | true =>
+          exact ⟨k'', by simpa using hk, by simpa [Tree.has] using hh, by simpa [pathLt] using hlt⟩
+    · rintro ⟨k'', hk, hh, hlt⟩
+      exact ⟨true :: k'', by simp [hk], by simp [Tree.has, hh], by simp [pathLt, hlt]⟩
+
+theorem gtIn_bin_left {l r : Tree H} {n : Nat} (hr : WF r n) (key : Path) :
+    GtIn (Tree.bin l r) (n + 1) (false :: key) := (gtIn_bin (l := l) hr false key).mpr trivial
+
+theorem has_edge_prefix {p : Path} {c : Tree H} {k : Path} (h : (Tree.edge p c).has k = true) :
+    ∃ k'', k = p ++ k'' ∧ c.has k'' = true := by
+  simp only [Tree.has, Bool.and_eq_true] at h
+  obtain ⟨hp, hc⟩ := h
+  obtain ⟨t, rfl⟩ := isPrefixOf_true_iff.mp hp
+  exact ⟨t, rfl, by simpa using hc⟩
+
+theorem gtIn_edge_match {p : Path} {c : Tree H} {n : Nat} (key' : Path) :
+    GtIn (Tree.edge p c) (p.length + n) (p ++ key') ↔ GtIn c n key' := by
+  constructor
+  · rintro ⟨k', hk, hh, hlt⟩
+    obtain ⟨k'', rfl, hc⟩ := has_edge_prefix hh
+    exact ⟨k'', by simpa using hk, hc, by simpa [pathLt_append_left] using hlt⟩
+  · rintro ⟨k'', hk, hh, hlt⟩
+    exact ⟨p ++ k'', by simp [hk], by simp [Tree.has, hh], by simp [pathLt_append_left, hlt]⟩
+
+theorem gtIn_edge_mismatch {p : Path} {c : Tree H} {n : Nat} (hc : WF c n) (key : Path)
+    (hk : key.length = p.length + n) (hne : p.isPrefixOf key = false) :
+    GtIn (Tree.edge p c) (p.length + n) key ↔ pathLt (key.take p.length) p = true := by
+  have hsplit : key = key.take p.length ++ key.drop p.length := (List.take_append_drop _ _).symm
+  have hlen : (key.take p.length).length = p.length := by simp; omega
+  have hneq : key.take p.length ≠ p := by
+    intro h
+    have : p.isPrefixOf key = true := isPrefixOf_true_iff.mpr ⟨key.drop p.length, by
+      conv => lhs; lhs; rw [← h]
+      exact hsplit.symm⟩
+    rw [hne] at this; cases this
+  constructor
+  · rintro ⟨k', _, hh, hlt⟩
+    obtain ⟨k'', rfl, _⟩ := has_edge_prefix hh
+    rw [hsplit, pathLt_append_of_ne _ _ _ _ hlen hneq] at hlt
+    exact hlt
+  · intro hlt
+    obtain ⟨k'', hk'', hh⟩ := exists_has hc
+    refine ⟨p ++ k'', by simp [hk''], by simp [Tree.has, hh], ?_⟩
+    rw [hsplit, pathLt_append_of_ne _ _ _ _ hlen hneq]
+    exact hlt
+
+
+theorem hash_ne_zero_nz (hI : Ideal A) {t : Tree H} {n : Nat} (hwf : WF t n) (hnz : t.NZ A) :
+    t.hash A ≠ A.zero := by
+  cases t with
+  | leaf v => exact hnz
+  | bin l r => exact hI.bin_ne_zero _ _
+  | edge p c => exact hI.edge_ne_zero _ _
+
+/-- the `more` flag computed on the resolved path says whether the trie has a greater key -/
+def MoreOK (s : Tree H) (n : Nat) (key : Path) (r : Option (List (PNode H × Path) × Option H)) : Prop :=
+  match r with
+  | none => True
+  | some (path, _) => (hasRight path = true ↔ GtIn s n key)
+
+theorem afterR_more (hI : Ideal A) {rc : RCfg} (hev : rc.earlyValue = false)
+    (hlh : rc.leafHash = true) {P : PSet H} {allow : Bool}
+    {t' : Tree H} {n fuel : Nat} {node : PNode H} {key : Path} {ch : Child H} {key' : Path}
+    (hwf : WF t' n) (hnz : t'.NZ A) (hk : key'.length = n) (hf : ch.felt A = t'.hash A)
+    (ih : 0 < n → MoreOK t' n key' (resolveAux A rc P allow fuel (t'.hash A) key')) :
+    match afterR A rc P allow fuel node key ch key' with
+    | none => True
+    | some (path, _) => ∃ rest, path = (node, key) :: rest ∧ (hasRight rest = true ↔ GtIn t' n key') := by
+  have hleaf : n = 0 → (hasRight ([] : List (PNode H × Path)) = true ↔ GtIn t' n key') := by
+    intro hn; subst hn
+    obtain ⟨v, rfl⟩ := hwf.zero_inv
+    simp [hasRight, gtIn_leaf]
+  unfold afterR
+  cases htag : ch.tag with
+  | nil =>
+    have hz : t'.hash A = A.zero := by rw [← hf]; simp [Child.felt, htag]
+    exact absurd hz (hash_ne_zero_nz hI hwf hnz)
+  | value =>
+    simp only [hev, Bool.false_or]
+    by_cases hn : n = 0
+    · have hk0 : key'.length = 0 := by omega
+      simp only [hk0, decide_true, if_true]
+      exact ⟨[], rfl, hleaf hn⟩
+    · have : ¬ key'.length = 0 := by omega
+      simp [this]
+  | hash =>
+    have hfe : ch.h = t'.hash A := by rw [← hf]; simp [Child.felt, htag]
+    simp only [hfe]
+    by_cases hn : n = 0
+    · have hk0 : key'.length = 0 := by omega
+      simp only [hk0, hlh, decide_true, Bool.and_self, if_true]
+      exact ⟨[], rfl, hleaf hn⟩
+    · have hk0 : ¬ key'.length = 0 := by omega
+      simp only [hk0, decide_false, Bool.and_false, Bool.false_eq_true, if_false]
+      have := ih (by omega)
+      cases hr : resolveAux A rc P allow fuel (t'.hash A) key' with
+      | none => trivial
+      | some pr =>
+        obtain ⟨rest, v⟩ := pr
+        rw [hr] at this
+        exact ⟨rest, rfl, this⟩
+
+
+theorem resolve_more (hI : Ideal A) (rc : RCfg) (hch : rc.checkHash = true)
+    (hev : rc.earlyValue = false) (hlh : rc.leafHash = true) (P : PSet H) (allow : Bool) :
+    ∀ (s : Tree H) (m fuel : Nat) (key : Path), WF s m → s.NZ A → 0 < m → key.length = m →
+      MoreOK s m key (resolveAux A rc P allow fuel (s.hash A) key) := by
+  intro s
+  induction s with
+  | leaf x => intro m fuel key hwf _ hm; have := hwf.leaf_inv; omega
+  | bin l r ihl ihr =>
+    intro m fuel key hwf hnz hm hk
+    obtain ⟨n, rfl, hl, hr⟩ := hwf.bin_inv
+    obtain ⟨hnzl, hnzr⟩ := hnz
+    cases fuel with
+    | zero => simp [resolveAux, MoreOK]
+    | succ f =>
+      cases hget : P.get ((Tree.bin l r).hash A) with
+      | none => simp [resolveAux, hget, MoreOK]
+      | some nd =>
+        by_cases hh : nd.hash A = (Tree.bin l r).hash A
+        · obtain ⟨l', r', c', rfl, hl', hr'⟩ := pnode_of_hash_bin hI (a := l.hash A) (b := r.hash A) hh
+          rw [resolveAux_succ hget (by simp [hh])]
+          cases key with
+          | nil => simp at hk
+          | cons b key' =>
+            have hkl : key'.length = n := by simpa using hk
+            have hrtag : r'.tag ≠ Tag.nil := by
+              intro ht
+              have : r.hash A = A.zero := by rw [← hr']; simp [Child.felt, ht]
+              exact hash_ne_zero_nz hI hr hnzr this
+            simp only [step2, List.headD_cons, List.drop_one, List.tail_cons]
+            cases b with
+            | true =>
+              have h1 := afterR_more hI hev hlh (P := P) (allow := allow) (fuel := f)
+                (node := PNode.bin l' r' c') (key := true :: key') hr hnzr hkl hr'
+                (fun hn => ihr n f key' hr hnzr hn hkl)
+              simp only [if_true]
+              cases hres : afterR A rc P allow f (PNode.bin l' r' c') (true :: key') r' key' with
+              | none => simp [MoreOK]
+              | some pr =>
+                obtain ⟨path, v⟩ := pr
+                rw [hres] at h1
+                obtain ⟨rest, rfl, hiff⟩ := h1
+                have hgt := gtIn_bin (l := l) hr true key'
+                simp only [if_true] at hgt
+                simp only [MoreOK, hasRight, List.headD_cons]
+                rw [hgt, ← hiff]
+                simp
+            | false =>
+              have h1 := afterR_more hI hev hlh (P := P) (allow := allow) (fuel := f)
+                (node := PNode.bin l' r' c') (key := false :: key') hl hnzl hkl hl'
+                (fun hn => ihl n f key' hl hnzl hn hkl)
+              simp only [Bool.false_eq_true, if_false]
+              cases hres : afterR A rc P allow f (PNode.bin l' r' c') (false :: key') l' key' with
+              | none => simp [MoreOK]
+              | some pr =>
+                obtain ⟨path, v⟩ := pr
+                rw [hres] at h1
+                obtain ⟨rest, rfl, _⟩ := h1
+                simp only [MoreOK, hasRight, List.headD_cons, hrtag, ne_eq, not_false_eq_true,
+                  decide_true, Bool.and_self, if_true, true_iff]
+                exact gtIn_bin_left hr key'
+        · simp [resolveAux, hget, hch, hh, MoreOK]
+  | edge p c ih =>
+    intro m fuel key hwf hnz hm hk
+    obtain ⟨n, rfl, hp, hc⟩ := hwf.edge_inv
+    cases fuel with
+    | zero => simp [resolveAux, MoreOK]
+    | succ f =>
+      cases hget : P.get ((Tree.edge p c).hash A) with
+      | none => simp [resolveAux, hget, MoreOK]
+      | some nd =>
+        by_cases hh : nd.hash A = (Tree.edge p c).hash A
+        · obtain ⟨ch, cc, rfl, hch'⟩ := pnode_of_hash_edge hI (c := c.hash A) (p := p) hh
+          rw [resolveAux_succ hget (by simp [hh])]
+          have hcomp : pathCompat p key = p.isPrefixOf key := by
+            rw [pathCompat_comm]; exact pathCompat_of_le (by omega)
+          simp only [step2, hcomp]
+          cases hpre : p.isPrefixOf key with
+          | false =>
+            simp only [Bool.not_false, if_true]
+            cases allow with
+            | false => simp [MoreOK]
+            | true =>
+              simp only [if_true, MoreOK, hasRight, hcomp, hpre, Bool.not_false]
+              have hpad : (if key.length > p.length then p ++ List.replicate (key.length - p.length) false else p)
+                  = p ++ List.replicate n false := by
+                by_cases hn : n = 0
+                · subst hn
+                  have : ¬ key.length > p.length := by omega
+                  simp [this]
+                · have : key.length > p.length := by omega
+                  simp only [this, if_true]
+                  congr 2
+                  omega
+              rw [hpad, cmpGt_eq_pathLt (by simp; omega), gtIn_edge_mismatch hc key hk hpre]
+              have hsplit : key = key.take p.length ++ key.drop p.length := (List.take_append_drop _ _).symm
+              have hlen : (key.take p.length).length = p.length := by simp; omega
+              have hneq : key.take p.length ≠ p := by
+                intro h
+                have : p.isPrefixOf key = true := isPrefixOf_true_iff.mpr ⟨key.drop p.length, by
+                  conv => lhs; lhs; rw [← h]
+                  exact hsplit.symm⟩
+                rw [hpre] at this; cases this
+              conv => lhs; rw [hsplit, pathLt_append_of_ne _ _ _ _ hlen hneq]
+          | true =>
+            simp only [Bool.not_true, Bool.false_eq_true, if_false]
+            obtain ⟨key', rfl⟩ := isPrefixOf_true_iff.mp hpre
+            have hkl : key'.length = n := by simp at hk; omega
+            have hdrop : (p ++ key').drop p.length = key' := by simp
+            rw [hdrop]
+            have h1 := afterR_more hI hev hlh (P := P) (allow := allow) (fuel := f)
+              (node := PNode.edge p ch cc) (key := p ++ key') hc hnz hkl hch'
+              (fun hn => ih n f key' hc hnz hn hkl)
+            cases hres : afterR A rc P allow f (PNode.edge p ch cc) (p ++ key') ch key' with
+            | none => simp [MoreOK]
+            | some pr =>
+              obtain ⟨path, v⟩ := pr
+              rw [hres] at h1
+              obtain ⟨rest, rfl, hiff⟩ := h1
+              simp only [MoreOK, hasRight, hcomp, hpre, Bool.not_true, Bool.false_eq_true, if_false]
+              rw [hiff, gtIn_edge_match]
+        · simp [resolveAux, hget, hch, hh, MoreOK]
+
+
+theorem pathLt_trichotomy : ∀ (a b : Path), a.length = b.length →
+    a = b ∨ pathLt a b = true ∨ pathLt b a = true := by
+  intro a
+  induction a with
+  | nil => intro b hl; cases b with
+    | nil => exact Or.inl rfl
+    | cons _ _ => simp at hl
+  | cons u us ih =>
+    intro b hl
+    cases b with
+    | nil => simp at hl
+    | cons v vs =>
+      rcases ih vs (by simpa using hl) with h | h | h
+      · subst h
+        cases u <;> cases v <;> simp [pathLt, pathLt_irrefl]
+      · cases u <;> cases v <;> simp [pathLt, h]
+      · cases u <;> cases v <;> simp [pathLt, h]
+
+theorem get_ne_zero_of_has {t : Tree H} {n : Nat} (hwf : WF t n) (hnz : t.NZ A) :
+    ∀ k, k.length = n → t.has k = true → t.get A k ≠ A.zero := by
+  induction t generalizing n with
+  | leaf v => intro k _ _; exact hnz
+  | bin l r ihl ihr =>
+    obtain ⟨m, rfl, hl, hr⟩ := hwf.bin_inv
+    intro k hk hh
+    cases k with
+    | nil => simp at hk
+    | cons b k' =>
+      cases b with
+      | true => simpa [Tree.get] using ihr hr hnz.2 k' (by simpa using hk) (by simpa [Tree.has] using hh)
+      | false => simpa [Tree.get] using ihl hl hnz.1 k' (by simpa using hk) (by simpa [Tree.has] using hh)
+  | edge p c ih =>
+    obtain ⟨m, rfl, _, hc⟩ := hwf.edge_inv
+    intro k hk hh
+    obtain ⟨k'', rfl, hc'⟩ := has_edge_prefix hh
+    have : (p.isPrefixOf (p ++ k'')) = true := isPrefixOf_true_iff.mpr ⟨k'', rfl⟩
+    simpa [Tree.get, this] using ih hc hnz k'' (by simp at hk; omega) hc'
+
+theorem single_more (hI : Ideal A) (rc : RCfg) (hch : rc.checkHash = true)
+    (hev : rc.earlyValue = false) (hlh : rc.leafHash = true) (t : Tree H) (n : Nat) (hwf : WF t n)
+    (hnz : t.NZ A) (hn : 0 < n) (k : Path) (hk : k.length = n) (v : H) (P : PSet H) (more : Bool)
+    (h : verifySingle A rc (t.hash A) k v P = RRes.ok more) : (more = true ↔ GtIn t n k) := by
+  unfold verifySingle at h
+  split at h
+  · cases h
+  · have hm := resolve_more hI rc hch hev hlh P false t n verifyFuel k hwf hnz hn hk
+    cases hr : resolveAux A rc P false verifyFuel (t.hash A) k with
+    | none => simp [hr] at h
+    | some pr =>
+      obtain ⟨path, val⟩ := pr
+      rw [hr] at h hm
+      cases val with
+      | none => simp at h
+      | some w =>
+        simp only at h
+        split at h
+        · cases h
+          exact hm
+        · cases h
+
+theorem empty_no_key (hI : Ideal A) (rc : RCfg) (hch : rc.checkHash = true)
+    (hev : rc.earlyValue = false) (hlh : rc.leafHash = true) (t : Tree H) (n : Nat) (hwf : WF t n)
+    (hnz : t.NZ A) (hn : 0 < n) (first : Path) (hk : first.length = n) (P : PSet H) (more : Bool)
+    (h : verifyEmpty A rc (t.hash A) first P = RRes.ok more) :
+    more = false ∧ ∀ k', k'.length = n → t.has k' = true → pathLt k' first = true := by
+  have hroot : t.hash A ≠ A.zero := hash_ne_zero hI hwf hn
+  have hzero := empty_sound hI rc hch hev hlh t n hwf hn first hk P more h
+  unfold verifyEmpty at h
+  simp only [hroot, decide_false, Bool.and_false, Bool.false_eq_true, if_false] at h
+  have hm := resolve_more hI rc hch hev hlh P true t n verifyFuel first hwf hnz hn hk
+  cases hr : resolveAux A rc P true verifyFuel (t.hash A) first with
+  | none => simp [hr, hroot] at h
+  | some pr =>
+    obtain ⟨path, val⟩ := pr
+    rw [hr] at hm
+    simp only [hr, hroot] at h
+    cases hright : hasRight path with
+    | true => simp [hright] at h
+    | false =>
+      simp only [hright, Bool.or_false] at h
+      have hmore : more = false := by
+        split at h
+        · cases h
+        · cases h; rfl
+      refine ⟨hmore, ?_⟩
+      intro k' hk' hhas
+      have hnot : ¬ GtIn t n first := fun hg => by
+        have := (show MoreOK t n first (some (path, val)) from hm).mpr hg
+        rw [hright] at this; cases this
+      rcases pathLt_trichotomy k' first (by omega) with heq | hlt | hgt
+      · subst heq
+        exact absurd hzero (get_ne_zero_of_has hwf hnz k' hk' hhas)
+      · exact hlt
+      · exact absurd ⟨k', hk', hhas, hgt⟩ hnot
 
 end Juno.C10
